@@ -242,12 +242,66 @@ def bounded_flows(reg, tier, seed):
                 fail("flows/handback", "flow of a vanished region was not handed back on release", {"case": "dead-region"})
         except Exception as e:  # noqa
             fail("flows/handback", f"releasing a flow whose region is gone raised {type(e).__name__}: {e}", {"case": "dead-region"})
+        # end to end through the proxy-side addon: the real SLMITMAddon hook queues the event, the real pump handles it, the real
+        # callback pump applies what came back - the flow mitmproxy holds must be released then, carrying the addon's rewrite
+        from unittest import mock
+        import mitmproxy.ctx
+        from hippolyzer.lib.proxy.http_proxy import SLMITMAddon
+        for kind, beh in itertools.product(("request", "response"), ("ignore", "rewrite_url", "raise")):
+            evals += 1
+            seen.add(("end-to-end", kind, beh))
+            a.b = beh
+            a.taken = []
+            mf = h.mkflow("https://sim.example/cap/e2e/%s" % beh, resp_content=b"x" if kind == "response" else None)
+            res = {}
+
+            async def e2e(mf=mf, kind=kind, res=res):
+                h.flow_context.shutdown_signal.clear()
+                side = SLMITMAddon(h.flow_context)
+                had_master = getattr(mitmproxy.ctx, "master", None)
+                mitmproxy.ctx.master = mock.MagicMock()
+                try:
+                    getattr(side, kind)(mf)
+                    res["held"] = mf.intercepted
+                    waiter = asyncio.ensure_future(mf.wait_for_resume())
+                    await asyncio.sleep(0.01)
+                    res["held_waiting"] = not waiter.done()
+                    await h.mgr.pump_proxy_event()
+                    res["handed_back"] = h.flow_context.to_proxy_queue.qsize()
+                    pump = asyncio.ensure_future(side._pump_callbacks())
+                    try:
+                        await asyncio.wait_for(asyncio.shield(waiter), 5.0)
+                    except asyncio.TimeoutError:
+                        pass
+                    res["released"] = waiter.done() and not mf.intercepted
+                    res["url"] = mf.request.url
+                    h.flow_context.shutdown_signal.set()
+                    await asyncio.wait_for(pump, 10.0)
+                    waiter.cancel()
+                finally:
+                    h.flow_context.shutdown_signal.clear()
+                    mitmproxy.ctx.master = had_master
+            try:
+                h.loop.run_until_complete(e2e())
+            except Exception as e:  # noqa
+                fail("flows/end-to-end", f"driving a {kind} event through the proxy-side addon raised {type(e).__name__}: {e}", {"kind": kind, "behaviour": beh})
+                continue
+            inp = {"kind": kind, "behaviour": beh, "observed": {k: v for k, v in res.items()}}
+            if not res.get("held") or not res.get("held_waiting"):
+                fail("flows/end-to-end", "the proxy-side hook did not hold the flow while the main process handles it", inp)
+            elif res.get("handed_back") != 1:
+                fail("flows/end-to-end", f"main process handed the event back {res.get('handed_back')} times", inp)
+            elif not res.get("released"):
+                fail("flows/end-to-end", "the event was handed back but the flow held by the HTTP proxy was never released", inp)
+            elif beh == "rewrite_url" and kind == "request" and "rewritten" not in res.get("url", ""):
+                fail("flows/end-to-end", f"the rewritten request did not reach the held flow ({res.get('url')})", inp)
     finally:
         h.close()
     return {"name": "http-flow-handback", "evaluations": evals, "distinct_nontrivial": len(seen),
             "rule": "events {request, response} x addon behaviours {ignore, take, take+resume later, inject response, rewrite url, raise, take+raise} x "
                     "raise points {none, cap resolution, message logger, session-level subscriber, region-level subscriber} x {cap, no cap} through the "
-                    "real pump; state transfer over all cap types x flag sets; vanished region. distinct = distinct case tuples",
+                    "real pump; state transfer over all cap types x flag sets; vanished region; {request, response} x {ignore, rewrite, raise} end to end "
+                    "through the real proxy-side addon hooks and callback pump. distinct = distinct case tuples",
             "bounded": True, "bounds": {"cases": len(cases)}, "samples": samples, "failures": failures}
 
 
